@@ -151,18 +151,16 @@ Theorem C16_broadcast_replays :
     fold_left check_and_put pending (f_cache f).
 Proof. exact broadcast_replays_pf. Qed.
 
-(* clauses stated, not yet proved (checks/C16.json "todo") *)
-(* full sync into a follower that already holds older versions of the same regions *)
-Definition C16_full_sync_over_stale_cache_todo : Prop :=
-  forall trunc batch cap kv regions (old : list rinfo),
+(* full synchronisation into a follower that already holds older versions of the leader's regions (same id, same
+   range, epochs not larger — what LoadRegionsOnce puts there from its own storage): the same conclusion *)
+Theorem C16_full_sync_over_stale_cache :
+  forall trunc batch cap kv regions old,
     all_truncated trunc -> region_set regions -> leaders_valid regions ->
-    (forall o, In o old -> exists r, In r regions /\ m_id (meta o) = m_id (meta r) /\
-                                      same_range (meta o) (meta r) = true /\
-                                      m_version (meta o) <= m_version (meta r) /\ m_confver (meta o) <= m_confver (meta r)) ->
-    region_set old ->
+    older_versions old regions -> region_set old ->
     let f0 := finit cap kv in
     let f := fold_left apply_msg (full_sync trunc batch regions) (FS old (f_saved f0) (f_hist f0)) in
     forall r, In r regions -> find_id (f_cache f) (m_id (meta r)) = Some r.
+Proof. exact full_sync_over_stale_cache_pf. Qed.
 
 (* non-vacuity: a capacity-3 buffer that wraps twice, is read at both window edges, reset and restarted *)
 Example C16_buffer_nonvacuous :
@@ -193,3 +191,4 @@ Print Assumptions C16_sync_history_incremental.
 Print Assumptions C16_sync_history_full.
 Print Assumptions C16_follower_index_after_msg.
 Print Assumptions C16_broadcast_replays.
+Print Assumptions C16_full_sync_over_stale_cache.
